@@ -25,7 +25,7 @@ _EXP_REPL = ["process_definition_stack", "process_header_stack", "process_table_
              "mmd_export_citation_list_html", "mmd_export_citation_list_latex", "mmd_export_citation_list_beamer", "mmd_export_token_tree_html",
              "mmd_export_token_tree_latex", "mmd_export_token_tree_beamer", "mmd_export_token_tree_memoir", "mmd_export_token_tree_opendocument",
              "mmd_export_token_tree_opml", "mmd_export_token_tree_itmz", "mmd_outline_add_beamer"]
-U("c20_export_token_tree", ["C20"], "h_export", ["C20/export.c"], [], enforce="mmd_engine_export_token_tree", replace=_EXP_REPL, lib=(), native=None, timeout=150,
+U("c20_export_token_tree", ["C20", "C09"], "h_export", ["C20/export.c"], [], enforce="mmd_engine_export_token_tree", replace=_EXP_REPL, lib=(), native=None, timeout=150,
   cbmc_flags=["--object-bits", "10"],
   callees={"every callee": "logging contract (ghost call trace); process_metadata_stack leaves arbitrary extensions/format"},
   assumptions=["all formats (symbolic short) and all post-metadata extension sets; callees by logging contract"])
